@@ -1,1 +1,267 @@
-(* C16 - to be filled *)
+(* C16 - Structurally invalid documents are rejected; valid ones are accepted.
+   Only statements, each closed by [exact]; see Spec/C16.v ([valid], the documented rules as a conjunction of
+   independent rules per record kind; [Known_C16_null_plain_string], the known deviation) and Proofs/C16.v. *)
+From Slinky Require Import Model.Types Model.Generated Model.Parse Spec.C08 Spec.C16 Proofs.C16.
+
+(* ---------- the equivalence ---------- *)
+
+(* a document is accepted exactly when it satisfies the documented rules - for every document that has no
+   YAML null in a plain String field (see the deviation below) *)
+Theorem C16_accept_iff_valid : forall sd,
+  Known_C16_null_plain_string sd = false -> is_ok (parse sd) = valid sd.
+Proof. exact doc_ok. Qed.
+
+(* "Every document that satisfies the documented rules is accepted" - unconditionally: a valid document has
+   no null plain string *)
+Theorem C16_valid_is_accepted : forall sd, valid sd = true -> exists doc, parse sd = Ok doc.
+Proof. exact valid_is_accepted. Qed.
+
+Theorem C16_valid_has_no_null_plain_string : forall sd, valid sd = true -> Known_C16_null_plain_string sd = false.
+Proof. exact valid_no_known. Qed.
+
+(* "rejected with an error - never accepted with the offending field silently ignored" *)
+Theorem C16_invalid_is_error : forall sd,
+  valid sd = false -> Known_C16_null_plain_string sd = false -> exists e, parse sd = Err e.
+Proof. exact invalid_is_error. Qed.
+
+Theorem C16_accepted_is_valid : forall sd doc,
+  parse sd = Ok doc -> Known_C16_null_plain_string sd = false -> valid sd = true.
+Proof. exact accepted_is_valid. Qed.
+
+(* KNOWN DEVIATION, kept visible: `name: null` (and likewise value / check / error_message) is read by serde_yaml
+   as the string "null" and accepted, although null on a non-nullable field must be rejected *)
+Theorem C16_refuted_null_plain_string :
+  exists sd, Known_C16_null_plain_string sd = true /\ valid sd = false /\ is_ok (parse sd) = true.
+Proof. exact refuted_null_plain_string. Qed.
+
+(* ---------- the same, record kind by record kind ---------- *)
+(* serde's structural checks followed by `unserialize` succeed exactly on the valid records *)
+
+Theorem C16_conds : forall c, is_ok (parse_conds c) = valid_conds c.
+Proof. exact conds_ok. Qed.
+
+Theorem C16_file : forall f, serde_ok_file f && is_ok (parse_file f) = valid_file f.
+Proof. exact file_ok. Qed.
+
+Theorem C16_gp_info : forall g, serde_ok_gp g && is_ok (parse_gp g) = valid_gp g.
+Proof. exact gp_ok. Qed.
+
+Theorem C16_settings : forall s, serde_ok_settings s && is_ok (parse_settings s) = valid_settings s.
+Proof. exact settings_ok. Qed.
+
+(* [settings_link gs st]: [st] is what the document's `settings:` entry [gs] parses to (the defaults if absent) *)
+Theorem C16_segment : forall gs st s, settings_link gs st -> is_null (ss_name s) = false ->
+  serde_ok_segment s && is_ok (parse_segment st s) = valid_segment gs s.
+Proof. exact segment_ok. Qed.
+
+Theorem C16_class : forall c, is_null (vs_name c) = false ->
+  serde_ok_class c && is_ok (parse_class c) = valid_class c.
+Proof. exact class_ok. Qed.
+
+Theorem C16_assignment : forall a, is_null (as_name a) = false -> is_null (as_value a) = false ->
+  serde_ok_assign a && is_ok (parse_assign a) = valid_assign a.
+Proof. exact assign_ok. Qed.
+
+Theorem C16_required : forall r, is_null (rs_name r) = false ->
+  serde_ok_required r && is_ok (parse_required r) = valid_required r.
+Proof. exact required_ok. Qed.
+
+Theorem C16_assert : forall a, is_null (ats_check a) = false -> is_null (ats_error_message a) = false ->
+  serde_ok_assert a && is_ok (parse_assert a) = valid_assert a.
+Proof. exact assert_ok. Qed.
+
+(* ---------- which error (single-fault cases) ---------- *)
+
+(* an unknown key at any of the nine record levels (document, settings, vram class, segment, file entry at any
+   depth, gp_info, symbol assignment, required symbol, assert) is serde's error *)
+Theorem C16_first_error_unknown_key : forall sd, has_unknown_key sd = true -> parse sd = Err EYaml.
+Proof. exact unknown_key_is_yaml_error. Qed.
+
+(* d_path without target_path, the settings being valid once d_path is removed *)
+Theorem C16_first_error_d_path : forall s,
+  valid_settings (sts_with_d_path s Absent) = true ->
+  has_value (sts_d_path s) = true -> has_value (sts_target_path s) = false ->
+  parse_settings s = Err (EMissingRequiredFieldCombo "target_path" "d_path").
+Proof. exact d_path_without_target. Qed.
+
+(* two address fields on a segment that is valid once the second one is removed: the six pairs *)
+Theorem C16_first_error_fixed_vram_fixed_symbol : forall st gs s,
+  valid_segment gs (ss_with_address s (ss_fixed_vram s) Absent (ss_follows_segment s) (ss_vram_class s)) = true ->
+  has_value (ss_fixed_vram s) = true -> has_value (ss_fixed_symbol s) = true ->
+  parse_segment st s = Err (EInvalidFieldCombo "fixed_vram" "fixed_symbol").
+Proof. exact two_addresses_vram_symbol. Qed.
+
+Theorem C16_first_error_fixed_vram_follows_segment : forall st gs s,
+  valid_segment gs (ss_with_address s (ss_fixed_vram s) (ss_fixed_symbol s) Absent (ss_vram_class s)) = true ->
+  has_value (ss_fixed_vram s) = true -> has_value (ss_follows_segment s) = true ->
+  parse_segment st s = Err (EInvalidFieldCombo "fixed_vram" "follows_segment").
+Proof. exact two_addresses_vram_follows. Qed.
+
+Theorem C16_first_error_fixed_vram_vram_class : forall st gs s,
+  valid_segment gs (ss_with_address s (ss_fixed_vram s) (ss_fixed_symbol s) (ss_follows_segment s) Absent) = true ->
+  has_value (ss_fixed_vram s) = true -> has_value (ss_vram_class s) = true ->
+  parse_segment st s = Err (EInvalidFieldCombo "fixed_vram" "vram_class").
+Proof. exact two_addresses_vram_class. Qed.
+
+Theorem C16_first_error_fixed_symbol_follows_segment : forall st gs s,
+  valid_segment gs (ss_with_address s (ss_fixed_vram s) (ss_fixed_symbol s) Absent (ss_vram_class s)) = true ->
+  has_value (ss_fixed_symbol s) = true -> has_value (ss_follows_segment s) = true ->
+  parse_segment st s = Err (EInvalidFieldCombo "fixed_symbol" "follows_segment").
+Proof. exact two_addresses_symbol_follows. Qed.
+
+Theorem C16_first_error_fixed_symbol_vram_class : forall st gs s,
+  valid_segment gs (ss_with_address s (ss_fixed_vram s) (ss_fixed_symbol s) (ss_follows_segment s) Absent) = true ->
+  has_value (ss_fixed_symbol s) = true -> has_value (ss_vram_class s) = true ->
+  parse_segment st s = Err (EInvalidFieldCombo "fixed_symbol" "vram_class").
+Proof. exact two_addresses_symbol_class. Qed.
+
+Theorem C16_first_error_follows_segment_vram_class : forall st gs s,
+  valid_segment gs (ss_with_address s (ss_fixed_vram s) (ss_fixed_symbol s) (ss_follows_segment s) Absent) = true ->
+  has_value (ss_follows_segment s) = true -> has_value (ss_vram_class s) = true ->
+  parse_segment st s = Err (EInvalidFieldCombo "follows_segment" "vram_class").
+Proof. exact two_addresses_follows_class. Qed.
+
+(* gp_info on a segment (valid without it) while the settings hardcode _gp *)
+Theorem C16_first_error_gp_info_hardcoded : forall st gs s g,
+  valid_segment gs (ss_with_gp_info s Absent) = true -> ss_gp_info s = Value g -> valid_gp g = true ->
+  is_some (hardcoded_gp_value st) = true ->
+  parse_segment st s = Err (EInvalidFieldCombo "segment.gp_info" "settings.hardcoded_gp_value").
+Proof. exact gp_info_with_hardcoded. Qed.
+
+(* a vram class with a name and no placement field *)
+Theorem C16_first_error_class_without_placement : forall c,
+  required_str (vs_name c) = true ->
+  not_null (vs_fixed_vram c) = true -> not_null (vs_fixed_symbol c) = true -> not_null (vs_follows_classes c) = true ->
+  count_true [has_value (vs_fixed_vram c); has_value (vs_fixed_symbol c); nonempty_list (an_list (vs_follows_classes c))] = 0 ->
+  parse_class c = Err (EMissingAnyOfOptionalFields "'fixed_vram', 'fixed_symbol', 'follows_classes'").
+Proof. exact class_without_placement. Qed.
+
+(* empty name, empty files, empty segments *)
+Theorem C16_first_error_empty_segment_name : forall st s,
+  ss_name s = Value "" -> parse_segment st s = Err (EEmptyValue "name").
+Proof. exact segment_empty_name. Qed.
+
+Theorem C16_first_error_empty_files : forall st s,
+  required_str (ss_name s) = true -> ss_files s = Some [] -> parse_segment st s = Err (EEmptyValue "files").
+Proof. exact segment_empty_files. Qed.
+
+Theorem C16_first_error_empty_segments : forall sd,
+  serde_ok sd = true -> not_null (ds_settings sd) = true -> if_given valid_settings (ds_settings sd) = true ->
+  ds_segments sd = Some [] -> parse sd = Err (EEmptyValue "segments").
+Proof. exact empty_segments. Qed.
+
+(* ---------- examples ---------- *)
+(* [ex_doc] (Proofs/C16.v) is a rich document - settings, a vram class, two segments, a pad, a linker offset, an
+   archive with subfile and section_order, a group with dir and keep_sections, gp_info, conditions, entry, a symbol
+   assignment, a required symbol, an assert - with ten places where one fault can be injected *)
+
+Example ex_valid : valid ex_doc_ok = true /\ is_ok (parse ex_doc_ok) = true /\
+  Known_C16_null_plain_string ex_doc_ok = false /\ has_unknown_key ex_doc_ok = false.
+Proof. vm_compute. repeat split. Qed.
+
+(* single-fault mutants: each is invalid, and rejected with the expected error ([is_mutant_rejected sd e] is
+   [valid sd = false /\ parse sd = Err e]) *)
+Example ex_unknown_key_in_nested_file :
+  is_mutant_rejected (ex_doc ["pth"] (Value 16%N) Absent Absent Absent Absent (Value ".sdata") (Value "build/game.elf")
+                             (Value [("version", "us")]) Absent true) EYaml /\
+  has_unknown_key (ex_doc ["pth"] (Value 16%N) Absent Absent Absent Absent (Value ".sdata") (Value "build/game.elf")
+                             (Value [("version", "us")]) Absent true) = true.
+Proof. vm_compute. repeat split. Qed.
+
+Example ex_pad_without_amount :
+  is_mutant_rejected (ex_doc [] Absent Absent Absent Absent Absent (Value ".sdata") (Value "build/game.elf")
+                             (Value [("version", "us")]) Absent true) (EMissingRequiredField "pad_amount").
+Proof. vm_compute. repeat split. Qed.
+
+Example ex_object_with_section :
+  is_mutant_rejected (ex_doc [] (Value 16%N) (Value ".text") Absent Absent Absent (Value ".sdata") (Value "build/game.elf")
+                             (Value [("version", "us")]) Absent true)
+                     (EInvalidFieldCombo "section" "non `kind: pad or kind: linker_offset`").
+Proof. vm_compute. repeat split. Qed.
+
+Example ex_two_segment_addresses :
+  is_mutant_rejected (ex_doc [] (Value 16%N) Absent (Value "boot_start") Absent Absent (Value ".sdata") (Value "build/game.elf")
+                             (Value [("version", "us")]) Absent true) (EInvalidFieldCombo "fixed_vram" "fixed_symbol").
+Proof. vm_compute. repeat split. Qed.
+
+Example ex_two_class_placements :
+  is_mutant_rejected (ex_doc [] (Value 16%N) Absent Absent (Value "ovl_start") Absent (Value ".sdata") (Value "build/game.elf")
+                             (Value [("version", "us")]) Absent true) (EInvalidFieldCombo "fixed_vram" "fixed_symbol").
+Proof. vm_compute. repeat split. Qed.
+
+Example ex_gp_info_and_hardcoded_gp :
+  is_mutant_rejected (ex_doc [] (Value 16%N) Absent Absent Absent (Value 2148417680%N) (Value ".sdata") (Value "build/game.elf")
+                             (Value [("version", "us")]) Absent true)
+                     (EInvalidFieldCombo "segment.gp_info" "settings.hardcoded_gp_value").
+Proof. vm_compute. repeat split. Qed.
+
+Example ex_gp_section_not_in_segment :
+  is_mutant_rejected (ex_doc [] (Value 16%N) Absent Absent Absent Absent (Value ".got") (Value "build/game.elf")
+                             (Value [("version", "us")]) Absent true)
+                     (EMissingSectionForSegment "gp_info" ".got" "boot").
+Proof. vm_compute. repeat split. Qed.
+
+(* ... also when the section is lost because the global alloc_sections replaces the default list *)
+Example ex_gp_section_lost_by_global_override :
+  is_mutant_rejected (ex_doc [] (Value 16%N) Absent Absent Absent Absent (Value ".sdata") (Value "build/game.elf")
+                             (Value [("version", "us")]) (Value [".text"; ".data"]) true)
+                     (EMissingSectionForSegment "gp_info" ".sdata" "boot").
+Proof. vm_compute. repeat split. Qed.
+
+Example ex_d_path_without_target_path :
+  is_mutant_rejected (ex_doc [] (Value 16%N) Absent Absent Absent Absent (Value ".sdata") Absent
+                             (Value [("version", "us")]) Absent true)
+                     (EMissingRequiredFieldCombo "target_path" "d_path").
+Proof. vm_compute. repeat split. Qed.
+
+Example ex_empty_condition_list :
+  is_mutant_rejected (ex_doc [] (Value 16%N) Absent Absent Absent Absent (Value ".sdata") (Value "build/game.elf")
+                             (Value []) Absent true) (EEmptyValue "include_if_any").
+Proof. vm_compute. repeat split. Qed.
+
+Example ex_null_on_non_nullable :
+  is_mutant_rejected (ex_doc [] (Value 16%N) Absent Absent Absent Absent (Value ".sdata") (Value "build/game.elf")
+                             (Value [("version", "us")]) Null true) (ENullOnNonNull "alloc_sections").
+Proof. vm_compute. repeat split. Qed.
+
+Example ex_empty_segments :
+  is_mutant_rejected (ex_doc [] (Value 16%N) Absent Absent Absent Absent (Value ".sdata") (Value "build/game.elf")
+                             (Value [("version", "us")]) Absent false) (EEmptyValue "segments").
+Proof. vm_compute. repeat split. Qed.
+
+(* the hypotheses of the single-fault theorems are satisfiable: the boot segment of the two-address mutant *)
+Example ex_first_error_hyp :
+  let s := SegmentSerial [] (Value "boot") (Some [ex_pad (Value 16%N)]) (Value 1024%N) (Value "sym") Absent Absent Absent
+             Absent (ex_conds Absent) Absent Absent Absent Absent Absent Absent Absent Absent Absent Absent Absent Absent SKAbsent in
+  valid_segment Absent (ss_with_address s (ss_fixed_vram s) Absent (ss_follows_segment s) (ss_vram_class s)) = true /\
+  has_value (ss_fixed_vram s) = true /\ has_value (ss_fixed_symbol s) = true.
+Proof. vm_compute. repeat split. Qed.
+
+Print Assumptions C16_accept_iff_valid.
+Print Assumptions C16_valid_is_accepted.
+Print Assumptions C16_valid_has_no_null_plain_string.
+Print Assumptions C16_invalid_is_error.
+Print Assumptions C16_accepted_is_valid.
+Print Assumptions C16_refuted_null_plain_string.
+Print Assumptions C16_conds.
+Print Assumptions C16_file.
+Print Assumptions C16_gp_info.
+Print Assumptions C16_settings.
+Print Assumptions C16_segment.
+Print Assumptions C16_class.
+Print Assumptions C16_assignment.
+Print Assumptions C16_required.
+Print Assumptions C16_assert.
+Print Assumptions C16_first_error_unknown_key.
+Print Assumptions C16_first_error_d_path.
+Print Assumptions C16_first_error_fixed_vram_fixed_symbol.
+Print Assumptions C16_first_error_fixed_vram_follows_segment.
+Print Assumptions C16_first_error_fixed_vram_vram_class.
+Print Assumptions C16_first_error_fixed_symbol_follows_segment.
+Print Assumptions C16_first_error_fixed_symbol_vram_class.
+Print Assumptions C16_first_error_follows_segment_vram_class.
+Print Assumptions C16_first_error_gp_info_hardcoded.
+Print Assumptions C16_first_error_class_without_placement.
+Print Assumptions C16_first_error_empty_segment_name.
+Print Assumptions C16_first_error_empty_files.
+Print Assumptions C16_first_error_empty_segments.
